@@ -7,13 +7,13 @@ REPO_HOOK_COMMITS = ["44a8587", "e060c76"]
 # id -> (engine, category, technique, text, note, design_ref)
 CHECKS = {
  "C01": ("e1 seq", "model_checking", "bounded-exhaustive enumeration of operation words x configuration grid on the real store, map-model oracle after every step",
-         "Every word of depth 5 (quick) / 7 (thorough) over {set a/b small+9000B, del a/b, merge} for every configuration of a 3 file-size x 5 threshold-set x 2 merge-order grid, plus reader-cache/pool sweeps and a wide key/value sweep (empty, binary, 300-byte keys; empty, CR/LF/NUL, 9 000- and 70 000-byte values), is executed on the real store; every get of every key and every return value is compared with a BTreeMap after every step. Exhaustive within these bounds, nothing sampled.",
+         "Every word of depth 5 (quick) / 7 (thorough) over {set a/b small+9000B, del a/b, merge} for every configuration of a 3 file-size x 5 threshold-set x 2 merge-order grid, plus reader-cache/pool sweeps and a wide key/value sweep (empty, binary, 300-byte keys; empty, CR/LF/NUL, 9 000- and 70 000-byte values; run with a warm reader cache and again with no reader cache and two pooled readers, because the oracle's own reads warm the cache), is executed on the real store; every get of every key and every return value is compared with a BTreeMap after every step. Exhaustive within these bounds, nothing sampled.",
          "Two colliding keys stand for all keys; bounds as stated; background worker neutralised (merges issued through the verif_merge hook); tmpfs.", "DESIGN.md §5 E1, §6 C01"),
  "C02": ("e1 seq", "model_checking", "bounded-exhaustive enumeration of set/del/reopen words x file sizes on the real store, map-model oracle + reopen-stability oracle",
          "Every word of depth 5/7 over {set, del, reopen} x max_file_size {0, 60, 2^31}, a many-files sweep (depth 7/9 at max_file_size 0: more than 10 data files, so numeric vs. lexicographic id order matters) and a wide key/value sweep; after every step all reads equal the map model (reopen is the identity), deletes of keys deleted before a restart report 'absent', and trailing reopen cycles change neither the index nor the directory except for one new empty file.",
          "Same alphabet limits as C01.", "DESIGN.md §5 E1, §6 C02"),
  "C05": ("e1 seq", "model_checking", "bounded-exhaustive enumeration of words with merge and reopen x threshold grid (all subsets a merge may select) on the real store, map-model oracle",
-         "Every word of depth 5/6 over the 8-symbol alphabet including merge and reopen, for 5 threshold sets (ALL, DEAD, SIZE27, FRAG, NONE) x 3 file sizes x both merge copy orders; reads before merge = after merge = after every following reopen = map model. The evidence lists which subsets of files the merges selected (including subsets that exclude an older file holding an overwritten or deleted value).",
+         "Every word of depth 5/6 over the 8-symbol alphabet including merge and reopen, for 5 threshold sets (ALL, DEAD, SIZE27, FRAG, NONE) x 3 file sizes x both merge copy orders; reads before merge = after merge = after every following reopen = map model. Further sweeps start from non-initial states: the store is filled and fully merged under ALL (data in hinted merge outputs), re-opened with each other threshold set, then every word of depth 4|5 is run (two merges with different selections). The evidence lists which subsets of files the merges selected (including subsets that exclude an older file holding an overwritten or deleted value).",
          "Same alphabet limits as C01.", "DESIGN.md §5 E1, §6 C05"),
  "C12": ("e1 seq", "model_checking", "differential recovery (with / without hint files) in every state reached by bounded-exhaustive words",
          "In every state reached by every word of depth 4/5 of the C05 space the directory is copied twice, hint files are deleted from one copy, both are opened by the real code: reads and index must agree with each other and with the map model. Evidence counts states that really had one and several non-empty hint files.",
@@ -46,7 +46,7 @@ CHECKS = {
          "Frame sequences (all kinds, i64 extremes, bulk strings with CR/LF/NUL and 8192/8193 bytes, arrays up to length 3|4, sequences up to 3|4 frames) are encoded by the real write_frame (bytes compared with an independent encoder) and decoded by the real read_frame under every segmentation (all 2^(n-1) for n <= 14|17 bytes; whole, byte-wise, all single cuts, pairs near the ends otherwise), every placement of <= 2 Pending answers, and every strict prefix followed by silence (must stay incomplete) or EOF (must be an error unless at a frame boundary).",
          "Nested arrays cannot be written by write_frame (unimplemented!) and are outside 'any frame the connection can write'.", "DESIGN.md §5 E4, §6 C08"),
  "C06": ("e5 net", "model_checking", "bounded-exhaustive request words x delivery patterns (every single cut, every pair of cuts, byte-wise, pipelined, lock-step) against the real server on a harness-owned runtime; map-model oracle on the complete reply stream",
-         "Request words up to depth 3|4 over 12 requests (SET/GET/DEL, multi-key DEL with repeats and misses, values with CR LF NUL and empty, a 2-byte UTF-8 key) plus words with a 9 000-byte value; each word's byte stream is delivered to a fresh real server whole, in lock-step, one byte per recv, with every single cut and (short words) every pair of cuts, and with every single cut where the client first WAITS for all replies of the requests completed before the cut and only then sends the rest; the interposed recv hands over exactly the scripted segments. The complete reply stream up to end-of-stream must equal the reference encoding of the map model's answers; the store read through the handle must equal the model.",
+         "Request words up to depth 3|4 over 12 requests (SET/GET/DEL, multi-key DEL with repeats and misses, values with CR LF NUL and empty, a 2-byte UTF-8 key) plus words with a 9 000-byte value; each word's byte stream is delivered to a fresh real server whole, in lock-step, one byte per recv, with every single cut and (short words) every pair of cuts, with replies that exceed the socket buffers (values of 300 KB .. 8|16 MiB put in the store beforehand, pipelines of up to 40 large GETs) to a client that starts reading only once the server is blocked, and with every single cut where the client first WAITS for all replies of the requests completed before the cut and only then sends the rest; the interposed recv hands over exactly the scripted segments. The complete reply stream up to end-of-stream must equal the reference encoding of the map model's answers; the store read through the handle must equal the model.",
          "Current-thread runtime; tokio primitives trusted; real loopback TCP.", "DESIGN.md §5 E5, §6 C06"),
  "C10": ("e5 net", "model_checking", "bounded-exhaustive hostile byte streams x endings x position relative to control traffic against the real server; liveness of the server thread and correctness of control / fresh connections as oracle",
          "ALL byte strings of length <= 4|5 over 12 symbols, every truncation and single-byte substitution of SET/GET/DEL requests, unknown/lower-case commands, every near-miss spelling of SET/GET/DEL (prefixes, one byte prepended / appended / replaced, all case variants, Redis commands that start with them such as SETNX or DELETE) with argument lists the real commands accept, every arity 0..4, every non-bulk frame type in every argument position, non-UTF-8 keys, nesting up to 300 000, declared lengths up to 2^64-1, 70 000 NULs, half of a 70 000-byte value; each with endings close / half-close / leave open. The server thread must stay alive (a process abort kills the worker and is reported with the case in progress), the control connection and a fresh connection must get the model's answers, the hostile connection must see exactly the replies of its well-formed prefix, the store may differ from the model only by that prefix, and run() must still return on shutdown.",
@@ -55,7 +55,7 @@ CHECKS = {
          "2 clients x programs of 1-2 commands over 5 commands, 3 clients x 1 command (thorough: 3 clients x <= 2 commands), and a variant with rollover at every write and a merge after every store entry: every command is held by a KeyValueStorage wrapper before it enters the store and before it returns, and EVERY interleaving of those events is executed; in a further variant SET and DEL are held a third time INSIDE the store call, right before they queue for the writer lock (store hook), so that a look at the index and the update that follows it can be separated by whole operations of other clients. Each reply must encode what its own store call returned; store-level and client-level histories must be linearizable against the map model; one-at-a-time schedules must match the model in entry order exactly; no reply is readable while its command is held; one reply per request.",
          "Command granularity: what happens inside two overlapping store calls is C04's subject; tokio's multi-thread scheduler is not enumerated.", "DESIGN.md §5 E5, §6 C11"),
  "C15": ("e5 net", "model_checking", "explicit-state search over connection-event words on the real server with a reference model of the accept loop checked after every event",
-         "max_connections N in {1, 2}; events: connect a client that sends GET / nothing / half a frame / malformed bytes / triggers a panic in its handler task / whose accept fails with ECONNABORTED (injected in the interposed accept4), or close the i-th open client; ALL words with up to 3|4 connections and length <= 6|8. After every event the served set must equal the FIFO accept model (served ones answered, waiting ones silent at quiescence, number of commands that reached the store equal to the model's); after every word N fresh connections are served concurrently, one more is not, and it is served once one of them closes.",
+         "max_connections N in {1, 2}; events: connect a client that sends GET / nothing / half a frame / malformed bytes / triggers a panic in its handler task / whose accept fails with ECONNABORTED (injected in the interposed accept4), close the i-th open client, or abort it with a reset (RST; a connection reset while waiting in the backlog is later accepted as a dead socket); ALL words with up to 3|4 connections and length <= 6|8. After every event the served set must equal the FIFO accept model (served ones answered, waiting ones silent at quiescence, number of commands that reached the store equal to the model's); after every word N fresh connections are served concurrently, one more is not, and it is served once one of them closes.",
          "Quiescence = server thread parked in epoll_wait with nothing ready and no store call in flight, plus a stability window; negative observations can only miss.", "DESIGN.md §5 E5, §6 C15"),
  "C16": ("e5 net", "model_checking", "exhaustive connection-state x shutdown-moment x release-order enumeration on the real server",
          "1 and 2 connections, each in one of: idle (0 or 1 commands done), every strict prefix of a request sent, command held before the store, command held after the store call, two pipelined requests with the first held, an 8 MiB reply stalled on a client that does not read, a client that never pauses (one command held, 16 requests on the wire, keeps 16 requests ahead of the replies it reads: the server must stop answering it within 2 000 requests); then the shutdown signal; then every order of the remaining release/resume events. run() must not return while a command is in flight and must return once everything is released; in-flight commands are answered completely and never torn; every client's stream parses as complete replies then end of stream; acknowledged commands are in the store; incomplete requests change nothing.",
